@@ -552,7 +552,9 @@ func (k *Kernel) addProposedHeader(ctx context.Context, s *kState, ph tmconsensu
 	// the finalized proof;
 	// we cannot merge it into the unfinalized precommits,
 	// because we must assume it is in a form that may not be merged.
-	if k.cmspScheme.CanMergeFinalizedProofs() {
+	if k.cmspScheme.CanMergeFinalizedProofs() && len(backfillVRV.ValidatorSet.PubKeys) > 0 {
+		// (There is nothing to backfill into while no height is committing,
+		// whatever previous commit proof a header of the initial height claims to carry.)
 		// TODO: this merging code should probably move to a function in gcrypto.
 		commitProofs := ph.Header.PrevCommitProof.Proofs
 		mergedAny := false
